@@ -114,6 +114,8 @@ def parseFault (j : Json) : Fault :=
   match jStr j "fault" with
   | "fail" => .failNuts
   | "stop" => .stop (jNat j "k")
+  | "logerr" => .logFail (jNat j "k")
+  | "logstop" => .logStop (jNat j "k")
   | _ => .none
 
 def step (st : St) (j : Json) : St × List String :=
